@@ -78,10 +78,19 @@ def case_random(ctx, rng, idx, uniform=False):
             ctx.check("C14:random_hypergraph", False, f"C14:{name}:raised:{type(r.e).__name__}", lambda: wit(r))
             continue
         S = check_basic(ctx, "C14:random_hypergraph", name, r, n, by, False, wit)
-        # unrelated RNG consumption in between must not matter for a seeded call
+        # unrelated RNG consumption in between must not matter for a seeded call, and neither must anything the
+        # caller did to the first result (a generator handing out a cached object would show here)
         pyrandom.random(); np.random.random(3); pyrandom.seed(rng.randrange(99))
+        if rng.random() < 0.5:
+            try:
+                r.add_edge(tuple(range(min(n, 6))))
+                r.add_node(n + 5)
+                for e in list(r.get_edges())[:2]:
+                    r.remove_edge(e)
+            except Exception:
+                pass
         r2 = call(gen)
-        ok = not isinstance(r2, _Raised) and observe(r2).same(S)
+        ok = not isinstance(r2, _Raised) and observe(r2).same(S) and r2 is not r
         ctx.check("C14:random_hypergraph", ok, f"C14:{name}:same-seed-different-hypergraph", wit)
         if len(S.edges) >= 2:
             ctx.distinct_add((name, n, tuple(sorted(by.items()))))
@@ -109,12 +118,13 @@ def case_scale_free(ctx, rng, idx):
         kw["corr_target"] = rng.choice([0.0, 0.3, 0.8, 1.0])
     elif variant == "shuffles":
         kw["num_shuffles"] = rng.randint(1, 5)
+    shared_by, shared_scale = dict(by), dict(scale)  # one parameter object reused over the realisations, as callers do
     for seed in (rng.randrange(10**6), rng.randrange(10**6), rng.randrange(10**6)):
         def wit(extra=None):
             return {"fn": "scale_free_hypergraph", "n": n, "edges_by_size": by, "scale_by_size": scale, "kwargs": kw, "numpy_seed": seed, "extra": repr(extra)[:600]}
 
         np.random.seed(seed)
-        r = call(scale_free_hypergraph, n, dict(by), dict(scale), **kw)
+        r = call(scale_free_hypergraph, n, shared_by, shared_scale, **kw)
         if isinstance(r, _Raised):
             ctx.check("C14:scale_free", False, f"C14:scale_free_hypergraph({variant}):raised:{type(r.e).__name__}", lambda: wit(r))
             continue
